@@ -688,7 +688,7 @@ func (sa *sharedAnalysis) s1(rule string, filter func(f *ssa.Function, step stri
 			case *ssa.Call:
 				// library calls that reorder / overwrite their first argument in place
 				if mutatingExternal[calleeName(&x.Call)] && len(x.Call.Args) > 0 {
-					addr = stripIface(x.Call.Args[0])
+					addr = mutatedArg(&x.Call)
 					if _, isBasic := addr.Type().Underlying().(*types.Basic); isBasic {
 						return
 					}
